@@ -70,6 +70,8 @@ pub struct Case {
     pub limits: Vec<u8>,
     pub soft: Vec<u8>,
     pub maps: Vec<u8>,
+    pub handles: Vec<(u64, String, String)>,
+    pub bootargs: Option<String>,
 }
 
 pub const ANCHOR_WORD: u64 = 0x7000_0100;
@@ -413,6 +415,19 @@ pub fn build_dump(c: &Case) -> Vec<u8> {
     }
     if !c.maps.is_empty() {
         dump = dump.set_linux_maps(&c.maps);
+    }
+    for (h, ty, name) in &c.handles {
+        let t = DumpString::new(ty, e);
+        let n = DumpString::new(name, e);
+        dump = dump.add_handle_descriptor(HandleDescriptor::new(e, *h, Some(&t), Some(&n), 0, 0, 1, 1)).add(t).add(n);
+    }
+    if let Some(b) = &c.bootargs {
+        // MINIDUMP_MAC_BOOTARGS: stream_type u32, bootargs RVA64 -> MINIDUMP_STRING
+        let ds = DumpString::new(b, e);
+        let sec = Section::with_endian(e).D32(0).D64(ds.file_offset());
+        dump = dump
+            .add_stream(SimpleStream { stream_type: md::MINIDUMP_STREAM_TYPE::MozMacosBootargsStream as u32, section: sec })
+            .add(ds);
     }
     dump = dump.add_system_info(SystemInfo::new(e).set_processor_architecture(c.arch).set_platform_id(c.platform));
     for (base, size, name) in &c.modules {
